@@ -46,6 +46,7 @@ package baseoutput
 //@ ghost var sigseq [1099511627776]int
 //@ ghost var pubseq [1099511627776]int
 //@ extern func (s *channels.SignalAwaitable) Signal()
+//@   flag counted
 //@   modifies evseq, sigseq
 //@   ghostset evseq := evseq + 1
 //@   ghostset sigseq[ref(s)] := evseq + 1
@@ -123,6 +124,7 @@ package baseoutput
 //@   ensures[unacknowledged-chunks-read-after-the-acknowledger-has-ended] loadseq[ref(&session.unacked)] > lastwaitseq
 
 //@ func (session *clientSession) resendLeftovers(leftovers chan base.LogChunk) (chan base.LogChunk, reconnectPolicy)
+//@   property C02 C19 C05
 //@   requires sessok(session) && leftovers != nil && session.lastChunk == nil && ref(leftovers) != ref(session.inputChannel) && ref(leftovers) != ref(session.ackerChan)
 //@   define   mkL == nrecv(leftovers) && mkI == nrecv(session.inputChannel) && mkA == nsent(session.ackerChan)
 //@   modifies everything
